@@ -312,7 +312,22 @@ func runC06(t *testing.T, planAny any, res *simnet.Result) {
 				}
 				return
 			}
-			if !reflect.DeepEqual(before, after) {
+			// what a wrongly applied update about this origin can alter: the origin's own entry, and the edges other
+			// nodes are recorded to have towards it.  (The rest of the picture may move for reasons of its own inside
+			// the window - the node's own sessions come and go without any message being handed to it.)
+			about := func(m map[string]map[string]float64) map[string]map[string]float64 {
+				out := map[string]map[string]float64{"self": {}, "towards": {}}
+				for k, v := range m[u.NodeID] {
+					out["self"][k] = v
+				}
+				for z, conns := range m {
+					if c, ok := conns[u.NodeID]; ok {
+						out["towards"][z] = c
+					}
+				}
+				return out
+			}
+			if !reflect.DeepEqual(about(before), about(after)) {
 				res.Violate("c06:stale-applied|"+variant, "stale update (%s, origin %s, epoch %d seq %d) changed %s's picture:\nbefore=%v\nafter=%v",
 					variant, u.NodeID, u.UpdateEpoch>>24, u.UpdateSequence, x.ID, before, after)
 			}
